@@ -223,6 +223,13 @@ func controlDependsOn(fn *ssa.Function, in ssa.Instruction, condPred func(ssa.Va
 		r0 := b.Succs[0] == target || blockReaches(b.Succs[0], target, b)
 		r1 := b.Succs[1] == target || blockReaches(b.Succs[1], target, b)
 		if r0 == r1 {
+			// the first operand of a short-circuit `a || b` (or `a && b`): both successors can reach the target, but
+			// one of them cannot avoid it (the target post-dominates that successor and not the branch): classical
+			// control dependence
+			pd := func(s *ssa.BasicBlock) bool { return s == target || !exitReachableAvoiding(s, target) }
+			if r0 && (pd(b.Succs[0]) != pd(b.Succs[1])) && exitReachableAvoiding(b, target) {
+				return true
+			}
 			continue
 		}
 		// ... and it is not simply what follows the branch on every path (e.g. the block after a loop)
